@@ -21,10 +21,10 @@ type c02Case struct {
 	Strict   bool
 	CacheDur time.Duration
 	NextUpd  bool // nextUpdate = +1h
-	Chain    int  // 0 same key type + AKI, 1 same type no AKI, 2 other key type + AKI, 3 other key type no AKI
+	Chain    int  // 0 same key type + AKI, 1 same type no AKI, 2 other key type + AKI, 3 other key type no AKI, 4 issuer certificate not among the chains
 }
 
-var c02ChainNames = []string{"same-keytype+AKI", "same-keytype-noAKI", "other-keytype+AKI", "other-keytype-noAKI"}
+var c02ChainNames = []string{"same-keytype+AKI", "same-keytype-noAKI", "other-keytype+AKI", "other-keytype-noAKI", "issuer-not-in-chain"}
 
 func (c c02Case) String() string {
 	var l []string
@@ -94,7 +94,7 @@ func (k *c02Cast) leaf(c c02Case) (*world.Ident, *world.Ident) {
 		return l, ca
 	}
 	o := world.CertOpt{CN: "c02 client", Serial: big.NewInt(777), KeyKind: "ec", KeyIdx: 5, OCSP: urls}
-	if c.Chain >= 2 {
+	if c.Chain == 2 || c.Chain == 3 {
 		o.KeyKind, o.KeyIdx = "rsa", 1
 	}
 	if c.Chain == 1 || c.Chain == 3 {
@@ -118,6 +118,10 @@ func (k *c02Cast) unauthorised(ca *world.Ident) *world.Ident {
 func (k *c02Cast) run(c c02Case) (v1, v2 Verdict, hits1, hits2 int) {
 	leaf, ca := k.leaf(c)
 	chain := world.Chain(leaf, ca, k.p.Root)
+	if c.Chain == 4 {
+		// no certificate of the presented chains is the issuer: no answer can be authenticated
+		chain = world.Chain(leaf, k.p.OtherCA)
+	}
 	seqWorld(func() {
 		w := NewOW(c.Strict, c.CacheDur, nil, nil)
 		for i, b := range c.List {
@@ -203,6 +207,22 @@ func RunC02(tier string, args []string) int {
 			}
 			return fmt.Sprintf("decider=%s strict=%v chain=%s", first, c.Strict, c02ChainNames[c.Chain])
 		}
+		if c.Chain == 4 {
+			// without an issuer certificate nothing can be authenticated: strict (with an http(s) responder named) must
+			// deny; the lenient outcome is left open by the statement (this is not responder unavailability)
+			answered = false
+			httpN := 0
+			for _, b := range c.List {
+				if c02Behaviours[b] != "ldap" {
+					httpN++
+				}
+			}
+			if c.Strict && httpN > 0 {
+				want = "ERR"
+			} else {
+				want = "FREE"
+			}
+		}
 		if v1.Panic != "" || v2.Panic != "" {
 			chk.Violation("C02|panic|"+normaliseNumbers(firstLines(v1.Panic+v2.Panic, 1)), "panic: "+v1.Panic+v2.Panic+" ["+c.String()+"]", c)
 			return
@@ -211,6 +231,9 @@ func RunC02(tier string, args []string) int {
 		// accept (or deny for another reason) is not a violation of the statement
 		if c.Strict && got1 == "ERR" && want != "ANY" {
 			want = "ERR"
+		}
+		if want == "FREE" {
+			return
 		}
 		if want != "ANY" && got1 != want {
 			chk.Violation("C02|call1|want="+want+" got="+got1+"|"+feat(), fmt.Sprintf("first lookup: reference says %s, implementation %s (%s) [%s]; transport hits %d", want, got1, v1.Err, c, h1), c)
@@ -254,10 +277,10 @@ func RunC02(tier string, args []string) int {
 			}
 		}
 	}
-	chains := []int{0, 1, 2, 3}
+	chains := []int{0, 1, 2, 3, 4}
 	nextUpds := []bool{false, true}
 	if tier != "thorough" {
-		chains = []int{0, 3}
+		chains = []int{0, 3, 4}
 		nextUpds = []bool{false}
 	}
 	for _, l := range lists {
@@ -277,7 +300,7 @@ func RunC02(tier string, args []string) int {
 	cov := fw.Coverage{
 		"evaluations":         evals,
 		"distinct_nontrivial": nontrivial,
-		"rule":                "all responder lists of length 0..3 over 9 behaviours (820 lists) x aia_strict(2) x default cache duration {0,10m} x nextUpdate {absent,+1h} (thorough) x chain shape (2 quick / 4 thorough); each case is a 2-event history on a fresh checker: lookup, all responders down, lookup. Non-trivial = at least one responder named.",
+		"rule":                "all responder lists of length 0..3 over 9 behaviours (820 lists) x aia_strict(2) x default cache duration {0,10m} x nextUpdate {absent,+1h} (thorough) x chain shape (3 quick / 5 thorough, incl. a chain which does not contain the issuer); each case is a 2-event history on a fresh checker: lookup, all responders down, lookup. Non-trivial = at least one responder named.",
 		"samples":             samples,
 		"outcome_classes":     outcomes.Counts(),
 		"exhaustive":          true,
